@@ -16,6 +16,16 @@ import subprocess
 import sys
 
 REPO = '/repo'
+OPS2 = [
+    (r'^(\s*)(self\.[a-z_\.]+\(.*\);|[a-z_]+\.[a-z_]+\(.*\);|[a-z_\.\[\]\*]+ [-+*]?= .*;)\s*$', r'\1'),          # delete a statement
+    (r'\(0\.\.', '(1..'), (r'\b0\.\.', '1..'), (r'\.iter\(\)', '.iter().skip(1)'), (r'\.\.=', '..'), (r'\+= 1\b', '+= 2'), (r'\+= ', '-= '), (r'-= ', '+= '),
+    (r'\(([a-z_]+), ([a-z_]+)\)', r'(\2, \1)'), (r'\.enumerate\(\)', '.enumerate().skip(1)'), (r'\.zip\(', '.zip(std::iter::repeat(()).zip('),
+    (r'Some\(([a-z_]+)\)', 'None'), (r'\.clone\(\)', ''), (r'\.abs\(\)', ''), (r'\.sqrt\(\)', ''), (r'\.t\(\)', ''), (r'\.dot\(', '.dot(&-'),
+    (r'\bmin_val\b', 'max_val'), (r'\bmax_val\b', 'min_val'), (r'\blower\b', 'upper'), (r'\bupper\b', 'lower'), (r'\bstart\b', 'end'), (r'\bdepth \+ 1', 'depth'),
+    (r'\bfirst\b', 'last'), (r'\bOk\(\(\)\)', 'Ok(())'), (r'\.unwrap_or\(0\)', '.unwrap_or(1)'), (r'>= 0\.', '> 0.'), (r'<= 0\.', '< 0.'), (r'\b1 << ', '2 << '),
+    (r'\.filter\(', '.filter(|_| true).skip_while('), (r'\.take\(', '.skip('), (r'\.skip\(', '.take('), (r'\.last\(\)', '.next()'), (r'\.first\(\)', '.last()'),
+    (r'\.push\(', '.insert(0, '), (r'\.pop\(\)', '.first().copied()'), (r'\bLabel\b', 'Label'),
+]
 OPS = [
     (r' == ', ' != '), (r' != ', ' == '), (r' <= ', ' < '), (r' >= ', ' > '), (r' < ', ' <= '), (r' > ', ' >= '), (r' < ', ' > '),
     (r' && ', ' || '), (r' \|\| ', ' && '), (r'\btrue\b', 'false'), (r'\bfalse\b', 'true'),
@@ -43,7 +53,8 @@ def source_files():
     return out
 
 
-def candidates():
+def candidates(ops=None):
+    ops = ops or OPS
     cands = []
     for path in source_files():
         lines = open(path).read().split('\n')
@@ -57,7 +68,7 @@ def candidates():
             l = lines[i]
             if SKIP_LINE.match(l) or SKIP_ANY.search(l):
                 continue
-            for k, (pat, rep) in enumerate(OPS):
+            for k, (pat, rep) in enumerate(ops):
                 for m in re.finditer(pat, l):
                     new = l[:m.start()] + m.expand(rep) + l[m.end():]
                     if new != l:
@@ -65,9 +76,10 @@ def candidates():
     return cands
 
 
-def gen(outdir, n, seed):
+def gen(outdir, n, seed, ops=None):
+    ops = ops or OPS
     os.makedirs(outdir, exist_ok=True)
-    c = candidates()
+    c = candidates(ops)
     random.Random(seed).shuffle(c)
     seen_lines = {}
     chosen = []
@@ -88,7 +100,7 @@ def gen(outdir, n, seed):
         diff = '\n'.join(difflib.unified_diff(a, b, 'a/' + rel, 'b/' + rel, lineterm='', n=3)) + '\n'
         name = 'x%04d.diff' % j
         open(os.path.join(outdir, name), 'w').write('diff --git a/%s b/%s\n' % (rel, rel) + diff)
-        index.append({'name': name, 'file': rel, 'line': i + 1, 'old': old.strip(), 'new': new.strip(), 'op': OPS[k][0] + ' -> ' + OPS[k][1]})
+        index.append({'name': name, 'file': rel, 'line': i + 1, 'old': old.strip(), 'new': new.strip(), 'op': ops[k][0] + ' -> ' + ops[k][1]})
     json.dump(index, open(os.path.join(outdir, 'index.json'), 'w'), indent=1)
     print(len(c), 'candidate sites,', len(chosen), 'mutants written to', outdir)
 
@@ -161,6 +173,8 @@ if __name__ == '__main__':
     cmd = sys.argv[1]
     if cmd == 'gen':
         gen(sys.argv[2], int(sys.argv[3]) if len(sys.argv) > 3 else 400, int(sys.argv[4]) if len(sys.argv) > 4 else 1)
+    elif cmd == 'gen2':
+        gen(sys.argv[2], int(sys.argv[3]) if len(sys.argv) > 3 else 400, int(sys.argv[4]) if len(sys.argv) > 4 else 1, OPS2)
     elif cmd == 'run':
         run(sys.argv[2])
     elif cmd == 'tests':
